@@ -70,6 +70,7 @@ class ECell:
             self.algs = [self.alg]
         # several key-agreement recipients need not share a curve (ECDH-1PU recipients share the sender's)
         self.restricted = rng.random() < 0.3
+        self.sender_via = "keyset-of-one" if rng.random() < 0.3 else "key"   # ECDH-1PU: the sender key handed over directly or in a key set
         self.token_as = rng.choice(["bytes", "bytes", "bytearray"]) if rng.random() < 0.35 else "str"       # compact tokens are accepted as str and as bytes
         self.plaintext_as = "str" if rng.random() < 0.25 else "bytes"  # encrypt_compact documents bytes | str
         self.curves = [self.curve] * n
@@ -77,7 +78,7 @@ class ECell:
             self.curves = [rng.choice(g.ECDH_CURVES) for _ in range(n)]
 
     def desc(self):
-        return {"algs": self.algs, "enc": self.enc, "zip": self.zip, "curve": self.curve, "curves": self.curves, "restricted_keys": self.restricted, "token_as": self.token_as, "plaintext_as": self.plaintext_as, "form": self.form, "plain": self.plain,
+        return {"algs": self.algs, "enc": self.enc, "zip": self.zip, "curve": self.curve, "curves": self.curves, "restricted_keys": self.restricted, "sender_via": self.sender_via, "token_as": self.token_as, "plaintext_as": self.plaintext_as, "form": self.form, "plain": self.plain,
                 "aad": self.aad, "apu": self.apu, "placement": self.placement, "key_via": self.key_via, "zip_unprotected": self.zip_unprotected}
 
 
@@ -109,6 +110,8 @@ def produce(cell: ECell, rng):
     unprotected = None
     allow = sorted(set(cell.algs) | {cell.enc} | ({"DEF"} if cell.zip else set()))
     sender = j.key(recs[0]["sender"]) if recs[0]["sender"] else None
+    if sender is not None and cell.sender_via == "keyset-of-one":
+        sender = j.KeySet([j.key({**recs[0]["sender"], "kid": "the-sender"})])
     apx = {"apu": b64u_enc(b"Alice"), "apv": b64u_enc(b"Bob \xff")} if cell.apu and g.is_ecdh(cell.algs[0]) else {}
     p = EProduced()
     p.cell, p.recs, p.plaintext, p.allow = cell, recs, plaintext, allow
@@ -171,6 +174,8 @@ def consume(p: EProduced, token=None):
     ks = [j.key(r["key"]) for r in p.recs]
     key = ks[0] if len(ks) == 1 and p.cell.key_via != "keyset" else j.KeySet(ks)
     sender = j.key(gen.public_jwk(p.recs[0]["sender"])) if p.recs[0]["sender"] else None
+    if sender is not None and p.cell.sender_via == "keyset-of-one":
+        sender = j.KeySet([j.key({**gen.public_jwk(p.recs[0]["sender"]), "kid": "the-sender"})])
     if isinstance(tok, str):
         arg = tok if p.cell.token_as == "str" else (tok.encode("utf-8") if p.cell.token_as == "bytes" else bytearray(tok.encode("utf-8")))
         return call(j.jwe.decrypt_compact, arg, key, algorithms=p.allow, sender_key=sender)
